@@ -64,6 +64,8 @@ def scalar(draw, kinds):
     kind = draw(st.sampled_from(kinds))
     if kind in ("int", "npint", "t0d_i64"):
         v = draw(scalar_value(True))
+    elif kind in ("npuint8", "t0d_u8"):
+        v = abs(draw(scalar_value(True)))      # unsigned kinds: negating them in their own type wraps around
     elif kind == "complex":
         v = [draw(scalar_value(False)), draw(scalar_value(False))]
     else:
@@ -87,6 +89,10 @@ def build_scalar(s, dt):
         return np.float32(v)
     if k == "npint":
         return np.int64(v)
+    if k == "npuint8":
+        return np.uint8(v)
+    if k == "t0d_u8":
+        return torch.tensor(int(v), dtype=torch.uint8)
     if k == "complex":
         return complex(v[0], v[1])
     if k == "t0d":
